@@ -626,10 +626,164 @@ impl Drop for UL {
     }
 }
 
+/// close() on one thread against one operation on another, aligned by feedback so that the two overlap in
+/// most trials: the return of an object, try_add, add (polled once), try_remove, try_get + return. At
+/// rest the closed pool holds nothing, reports nothing, and every object was destroyed or handed back
+/// to its owner exactly once.
+pub fn unmanaged_close_race(prop: &'static str, seed: u64) -> RaceOut {
+    use deadpool::unmanaged::{Pool as UPool, PoolError as UErr};
+    use std::sync::atomic::AtomicU64;
+    let mut rng = Rng::derive(seed, 0xc105e, 0);
+    let trials = rng.range(20_000, 60_000) as u64;
+    let mut viol: Vec<Violation> = Vec::new();
+    let mut by_use = [0u64; 5];
+    let (mut ahead, mut overlapped) = (0u64, 0u64);
+    let slot: Arc<std::sync::Mutex<Option<UPool<UL>>>> = Arc::new(std::sync::Mutex::new(None));
+    let go = Arc::new(AtomicU64::new(0));
+    let done = Arc::new(AtomicU64::new(0));
+    let delay = Arc::new(AtomicU64::new(0));
+    let helper = {
+        let (slot, go, done, delay) = (slot.clone(), go.clone(), done.clone(), delay.clone());
+        std::thread::spawn(move || {
+            let mut next = 1u64;
+            loop {
+                let g = loop {
+                    let g = go.load(Ordering::Acquire);
+                    if g >= next {
+                        break g;
+                    }
+                    std::hint::spin_loop();
+                };
+                if g == u64::MAX {
+                    return;
+                }
+                let p = slot.lock().unwrap().take();
+                spin(delay.load(Ordering::Relaxed));
+                if let Some(p) = p.as_ref() {
+                    p.close();
+                }
+                done.store(g, Ordering::Release);
+                drop(p);
+                next = g + 1;
+            }
+        })
+    };
+    let mut lead: i64 = 0;
+    for trial in 1..=trials {
+        let cnt = Arc::new(UCnt { dropped: AtomicUsize::new(0) });
+        let max = rng.range(1, 4) as usize;
+        let pool: UPool<UL> = UPool::new(max);
+        let mut made = 0usize;
+        let prefill = rng.range(1, max as u64) as usize;
+        for _ in 0..prefill {
+            made += 1;
+            if pool.try_add(UL(cnt.clone())).is_err() {
+                unreachable!("prefill");
+            }
+        }
+        let usage = rng.below(5) as usize;
+        by_use[usage] += 1;
+        // what the other thread will work with is prepared before the start signal
+        let held = if usage == 0 { poll_once(pool.timeout_get(Some(Duration::ZERO))).and_then(|r| r.ok()) } else { None };
+        let room = prefill < max;
+        let fresh = if matches!(usage, 1 | 2) {
+            made += 1;
+            Some(UL(cnt.clone()))
+        } else {
+            None
+        };
+        let mut handed_back = 0usize;
+        delay.store((lead.max(0) as u64) + rng.below(24), Ordering::Relaxed);
+        let d_use = ((-lead).max(0) as u64) + rng.below(24);
+        *slot.lock().unwrap() = Some(pool.clone());
+        go.store(trial, Ordering::Release);
+        spin(d_use);
+        let was_done = done.load(Ordering::Acquire) == trial;
+        let mut note = String::new();
+        match usage {
+            0 => drop(held),
+            1 => match pool.try_add(fresh.unwrap()) {
+                Ok(()) => note = "try_add -> Ok".into(),
+                Err((o, e)) => {
+                    note = format!("try_add -> Err({:?})", e);
+                    if matches!(e, UErr::Timeout) && room && !was_done {
+                        // (may still be legitimate when close() got in between: only judged below if it did not)
+                    }
+                    handed_back += 1;
+                    drop(o);
+                }
+            },
+            2 => match poll_once(pool.add(fresh.unwrap())) {
+                Some(Ok(())) => note = "add -> Ok".into(),
+                Some(Err((o, e))) => {
+                    note = format!("add -> Err({:?})", e);
+                    handed_back += 1;
+                    drop(o);
+                }
+                None => note = "add -> pending (dropped)".into(),
+            },
+            3 => match pool.try_remove() {
+                Ok(o) => {
+                    note = "try_remove -> Ok".into();
+                    handed_back += 1;
+                    drop(o);
+                }
+                Err(e) => note = format!("try_remove -> Err({:?})", e),
+            },
+            _ => match pool.try_get() {
+                Ok(o) => {
+                    note = "try_get -> Ok, returned".into();
+                    drop(o);
+                }
+                Err(e) => note = format!("try_get -> Err({:?})", e),
+            },
+        }
+        let still_open = done.load(Ordering::Acquire) != trial;
+        while done.load(Ordering::Acquire) != trial {
+            std::hint::spin_loop();
+        }
+        if was_done {
+            ahead += 1;
+            lead += 1;
+        } else if still_open {
+            lead -= 1;
+        } else {
+            overlapped += 1;
+        }
+        lead = lead.clamp(-400, 400);
+        // ---- at rest: both calls have returned
+        let st = pool.status();
+        let dropped = cnt.dropped.load(Ordering::SeqCst);
+        let what = ["return of an object", "try_add", "add", "try_remove", "try_get + return"][usage];
+        if !pool.is_closed() {
+            viol.push(Violation { prop, oracle: "race_not_closed", msg: format!("trial {}: close() returned but is_closed() is false", trial) });
+            break;
+        }
+        if st.size != 0 || st.available != 0 || st.waiting != 0 {
+            viol.push(Violation { prop, oracle: "closed_pool_holds_objects", msg: format!("trial {}: close() against {} ({}): at rest the closed pool reports {:?} ({} of {} objects destroyed)", trial, what, note, st, dropped, made) });
+            break;
+        }
+        // every object is gone by now: destroyed by the pool, or handed back to the caller and destroyed there
+        if dropped != made {
+            viol.push(Violation { prop, oracle: "kept_after_close", msg: format!("trial {}: close() against {} ({}): {} objects were made, {} destroyed ({} of them handed back to the caller) although the closed pool reports {:?}", trial, what, note, made, dropped, handed_back, st) });
+            break;
+        }
+        drop(pool);
+    }
+    go.store(u64::MAX, Ordering::Release);
+    let _ = helper.join();
+    let desc = format!("unmanaged close race trials={} uses(return/try_add/add/try_remove/try_get)={:?} close_first={} overlapped={}", trials, by_use, ahead, overlapped);
+    let shape = format!("u_close_race {} {}", seed, trials);
+    RaceOut { violations: viol, hash: vh_common::fnv1a(shape.as_bytes()), desc: Json::obj().with("engine", "uth_race").with("profile_prop", prop).with("seed", seed).with("case", desc), events: trials * 3 }
+}
+
 /// Unmanaged pool: get/return/add/remove at full speed, optionally with a close() in the middle.
 pub fn unmanaged_race(prop: &'static str, seed: u64, close: bool) -> RaceOut {
     use deadpool::unmanaged::{Pool as UPool, PoolError as UErr};
     let mut rng = Rng::derive(seed, 0x7acf, close as u64);
+    if close && !cfg!(miri) && std::env::var_os("VERIF_RACE_SMALL").is_none() && seed % 4 == 1 {
+        return unmanaged_close_race(prop, seed);
+    }
     if !close && !cfg!(miri) && std::env::var_os("VERIF_RACE_SMALL").is_none() && rng.chance(1, 3) {
         return unmanaged_bounds_race(prop, seed);
     }
